@@ -1264,7 +1264,19 @@ pub(crate) fn send_local_swarm_cmd(swarm_cmd_sender: Sender<LocalSwarmCmd>, cmd:
         );
     }
 
-    // Spawn a task to send the SwarmCmd and keep this fn sync
+    // Hand the command over in place whenever the channel has room, so that the commands of one
+    // caller reach the driver in the order they were issued: detached tasks are not run in spawn
+    // order, and a `put` could reach the driver after the `get` of the next delivery for the key.
+    let cmd = match swarm_cmd_sender.try_send(cmd) {
+        Ok(()) => return,
+        Err(mpsc::error::TrySendError::Full(cmd)) => cmd,
+        Err(mpsc::error::TrySendError::Closed(_)) => {
+            error!("Failed to send SwarmCmd: channel closed");
+            return;
+        }
+    };
+
+    // Only a full channel is awaited, in a task, to keep this fn sync
     let _handle = spawn(async move {
         if let Err(error) = swarm_cmd_sender.send(cmd).await {
             error!("Failed to send SwarmCmd: {}", error);
